@@ -21,14 +21,18 @@ def lt (a b : Bytes) : Bool := cmp a b == .lt
 
 end Bytes
 
-/-- remove adjacent duplicates (after sorting: all duplicates) -/
-def dedupAdj : List Bytes → List Bytes
-  | [] => []
-  | [a] => [a]
-  | a :: b :: r => if a == b then dedupAdj (b :: r) else a :: dedupAdj (b :: r)
+/-- insert into an ascending duplicate-free list, keeping it so (structural: reduces in the
+    kernel, so concrete witnesses can be checked by `decide`) -/
+def insertU (x : Bytes) : List Bytes → List Bytes
+  | [] => [x]
+  | y :: r =>
+    match Bytes.cmp x y with
+    | .lt => x :: y :: r
+    | .eq => y :: r
+    | .gt => y :: insertU x r
 
 /-- ascending, duplicate-free list of the byte strings in `l` -/
-def sortDedup (l : List Bytes) : List Bytes := dedupAdj (l.mergeSort Bytes.le)
+def sortDedup (l : List Bytes) : List Bytes := l.foldr insertU []
 
 def sumNat (l : List Nat) : Nat := l.foldl (· + ·) 0
 
